@@ -18,5 +18,10 @@ add("C13",
     "Trusted: the mask model; coordinates and bounds are generated float32-exact; windows with exactly one degenerate spatial axis and empty selections are not judged.",
     "deterministic simulation: seeded operation histories against an executable reference model",
     "DESIGN.md §4 C13")
-for _p in ("C01", "C05", "C06", "C15", "C17"):
+add("C01",
+    "Seeded search over call histories on every memoising class (20 specs; query patterns discovered by introspection, ~17k mutator x query pairs swept exhaustively at one input per class plus random histories of 6-30 ops over 1-3 live objects sharing the class-level LRU, with the LRU capacity / memoisation-off knob fixed per worker before import, discard+rebuild in a working directory that persists through the run). Oracle: a fresh twin built by the public constructor from the model of the object's current primary inputs (projection twin where the constructor cannot express the state), judged after the object's history has run; divergences reproduced by replaying earlier queries on a fresh twin are left to C06. Sampling, not enumeration.",
+    "Trusted: the per-class model updates (what each public mutator does to the primary inputs); queries are compared at 1e-9 relative (1e-4 for projection twins holding float64 copies of float32 weights); ARPACK-based centralities, bookkeeping accessors, randomised generators, I/O and plotting are not judged.",
+    "deterministic simulation: seeded operation histories with cache-capacity knob and durable working directory, fresh-twin reference model",
+    "DESIGN.md §4 C01")
+for _p in ("C05", "C06", "C15", "C17"):
     PENDING[_p] = "in the family (DESIGN §4) but its check is not built yet in this commit; not claimed until it is"
